@@ -234,10 +234,13 @@ def doc_rule_steps(dims_dyn, static_bounds):
     # largest static step; default = rightmost stride if everything is dynamic
     max_key = (len(dims_dyn) - 1, len(dims_dyn[-1]) - 1)
     max_val = 0
+    # documented rule: the static stride that reaches the furthest (step * bound; a dynamic bound counts as 1)
+    max_ext = 0
     for d, dim in enumerate(dims_dyn):
         for k, (b, s) in enumerate(dim):
-            if s is not None and s > max_val:
-                max_key, max_val = (d, k), s
+            sb = static_bounds[d][k] or 1
+            if s is not None and s * sb > max_ext:
+                max_key, max_val, max_ext = (d, k), s, s * sb
     cur = dims_dyn[max_key[0]][max_key[1]][0] * max_val
     out = [list(d) for d in dims_dyn]
     for d in reversed(range(len(dims_dyn))):
